@@ -99,6 +99,18 @@ class C14(Prop):
                 h["mp_switch"] = True
                 h["args"]["num_processors"] = c["args"]["num_processors"]
         vs.append(("history", c))
+        # one buffer, refilled in place between calls: the earlier call saw other values in the very same array object(s)
+        c = workload.clone(case)
+        h = workload.clone(case)
+        h["history"] = []
+        h["data"]["seed"] = core.H(seed, "refill")
+        h["args"]["iteration_limit"] = min(h["args"]["iteration_limit"], 3)
+        if r.random() < 0.5:
+            h["args"]["sparsity_weight"] = dict(form="float", value=r.choice([0.02, 0.6]), seed=0)
+        c["history"] = [h]
+        c["reuse_buffer"] = True
+        c["pool"]["sched_seed"] = core.H(seed, "refill_sched")
+        vs.append(("refill", c))
         # preceding process history
         for hno in range(2 if tier == "quick" else 3):
             c = workload.clone(case)
@@ -174,6 +186,9 @@ class C14(Prop):
                 rec.probe("history_len_%d" % len(c["history"]))
                 if any(not ok for ok, _ in out.history_outcomes):
                     rec.probe("history_with_failed_call")
+                nontrivial = True
+            if what == "refill":
+                rec.probe("refill_buffer_reused" if getattr(out, "buffer_reused", False) else "refill_buffer_did_not_fit")
                 nontrivial = True
             fp = fingerprint(out)
             if fp != fp0:
